@@ -45,7 +45,7 @@ Qed.
 Lemma mem_path_cons p q l : mem_path p (q :: l) = bytes_eqb p q || mem_path p l.
 Proof. reflexivity. Qed.
 
-Local Opaque PROXY_TUNNEL_ESTABLISHED_RESPONSE_PKT text_ strip_brackets path_join build_subject
+Local Opaque K200 PROXY_TUNNEL_ESTABLISHED_RESPONSE_PKT text_ strip_brackets path_join build_subject
       ssl_config get_ext_config validity_in_days mem_path get_alt_name generated_cert_file_path.
 
 (* destruct the scrutinee of an innermost match in a hypothesis / the goal *)
@@ -95,15 +95,10 @@ Section Facts.
   Notation step_ := (step PS RS pipeline_step response_step).
   Notation run_ := (run is_ip_literal connect handshake openssl_run client_flush client_handshake PS RS pipeline_step response_step).
   Notation alt_name := (get_alt_name is_ip_literal).
+  Local Notation good_cmd := (Intercept.good_cmd is_ip_literal).
+  Local Notation client_side_effect := (Intercept.client_side_effect is_ip_literal).
 
   (* ================================================================ wrap_server *)
-  (* the context settings wrap_server asks for: the verification policy *)
-  Definition policy_call (fl : flags) (h : bytes) : wrap_call :=
-    {| wc_cafile := ca_file fl;
-       wc_check_hostname := negb (insecure_tls_interception fl);
-       wc_verify_mode := if insecure_tls_interception fl then CERT_NONE else CERT_REQUIRED;
-       wc_server_hostname := Some (strip_brackets h) |}.
-
   Lemma wrap_server_spec fl host s s' r :
     wrap_server_ fl host s = (s', r) ->
     fs s' = fs s /\ cl s' = cl s /\ cl_buf s' = cl_buf s /\ cl_wire s' = cl_wire s /\
@@ -128,33 +123,6 @@ Section Facts.
   Qed.
 
   (* ================================================================ wrap_client *)
-  Definition good_cmd (fl : flags) (h : bytes) (c : openssl_cmd) : Prop :=
-    exists dir key cakey cacrt,
-      ca_cert_dir fl = Some dir /\ ca_signing_key_file fl = Some key /\
-      ca_key_file fl = Some cakey /\ ca_cert_file fl = Some cacrt /\
-      match c with
-      | CmdReqX509 subj k out days cfg he =>
-          k = key /\ out = path_join dir (h ++ bs ".pub") /\
-          cfg = LF :: bs "[PROXY]" ++ LF :: bs "subjectAltName=" ++ alt_name h /\ he = true /\
-          exists peer_subject, subj = build_subject peer_subject
-      | CmdX509ToReq crt k out =>
-          crt = path_join dir (h ++ bs ".pub") /\ k = key /\ out = path_join dir (h ++ bs ".csr")
-      | CmdSign ca_crt ca_key csr out days ext =>
-          ca_crt = cacrt /\ ca_key = cakey /\ csr = path_join dir (h ++ bs ".csr") /\
-          out = generated_cert_file_path dir h /\ ext = LF :: bs "subjectAltName=" ++ alt_name h
-      end.
-
-  Definition client_side_effect (fl : flags) (h : bytes) (e : effect) : Prop :=
-    match e with
-    | EOpenssl c => good_cmd fl h c
-    | EClientFlush _ => True
-    | EClientWrap k cert =>
-        ca_signing_key_file fl = Some k /\ exists dir, ca_cert_dir fl = Some dir /\ cert = generated_cert_file_path dir h
-    | _ => False
-    end.
-
-  Definition is_openssl (e : effect) : bool := match e with EOpenssl _ => true | _ => false end.
-
   (* gen_step: runs at most its own command; the file system only grows, by the -out file of a
      command that succeeded *)
   Lemma gen_step_spec path cmd s s' r :
@@ -375,8 +343,6 @@ Section Facts.
       + exists w; repeat split; auto.
   Qed.
 
-  Definition plain_wire (w : list (bool * bytes)) : Prop := Forall (fun x => fst x = false) w.
-
   Lemma wrap_client_spec fl host h s s' r :
     text_ host = Ok h ->
     wrap_client_ fl host s = (s', r) ->
@@ -514,8 +480,6 @@ Section Facts.
   Qed.
 
   (* ================================================================ on_request_complete *)
-  Definition K200 := PROXY_TUNNEL_ESTABLISHED_RESPONSE_PKT.
-
   (* the state once the origin is connected and the 200 reply is queued *)
   Definition connected_pst (fs0 : list bytes) (h : bytes) (port : N) : pst :=
     mkPst [EConnect h port; EClientQueue K200] fs0 ClPlain [K200] [] UpPlain [] [] None.
@@ -737,9 +701,6 @@ Section Facts.
   Qed.
 
   (* ================================================================ what handle_connect can do at all *)
-  Definition is_up_wrap (e : effect) : bool := match e with EUpstreamWrap _ => true | _ => false end.
-  Definition count_up_wraps (t : trace) : nat := length (filter is_up_wrap t).
-
   Definition allowed_effect (fl : flags) (host : bytes) (port : N) (e : effect) : Prop :=
     match e with
     | EConnect h' p => text_ host = Ok h' /\ p = port
@@ -871,14 +832,6 @@ Section Facts.
   Qed.
 
   (* ================================================================ opt-out / interception off: opaque tunnel *)
-  Definition tls_wire (w : list (bool * bytes)) : Prop := Forall (fun x => fst x = true) w.
-
-  (* an event at which interception is (still) declined: flags incomplete or some plugin answers False *)
-  Definition declined (fl : flags) (ev : event) : Prop :=
-    forall a, event_answers ev = Some a -> tls_intercept_enabled_ fl a = false.
-  Definition engaged_at (fl : flags) (ev : event) : Prop :=
-    forall a, event_answers ev = Some a -> tls_intercept_enabled_ fl a = true.
-
   Definition tunnel_inv (cs us : list bytes) (h : hstate PS RS) : Prop :=
     let s := ps h in
     mode h = Running /\ cl s = ClPlain /\ up s = UpPlain /\
@@ -968,9 +921,6 @@ Section Facts.
   Qed.
 
   (* ================================================================ an established interception *)
-  Definition established (h : hstate PS RS) : Prop :=
-    mode h = Running /\ cl (ps h) = ClTls /\ up (ps h) = UpTls.
-
   Lemma intercepted_fold fl evs : forall h outs,
     established h -> Forall (engaged_at fl) evs ->
     pipeline_outs pipeline_step (pipe h) (client_chunks evs) = Some outs ->
@@ -1033,5 +983,295 @@ Section Facts.
       + apply Forall_app; auto.
       + rewrite map_app, <- app_assoc, Hub2, app_assoc, Hub. now rewrite <- !app_assoc.
       + rewrite map_app, <- app_assoc, Hcb2, app_assoc, Hcb, Hu. now rewrite <- !app_assoc.
+  Qed.
+
+  (* ================================================================ when is anything TLS-wrapped? *)
+  (* The client side is wrapped only on one path: origin connected, interception engaged, the upstream
+     handshake succeeded under the policy settings, certificate available, client handshake succeeded. *)
+  Lemma hc_client_tls fl host port answers fs0 p0 r0 :
+    let h1 := handle_connect_ fl host port answers (init_h fs0 p0 r0) in
+    cl (ps h1) = ClTls ->
+    exists h p t,
+      text_ host = Ok h /\ host <> [] /\ port <> 0 /\ connect h port = None /\
+      tls_intercept_enabled_ fl answers = true /\
+      handshake (policy_call fl h) = HsOk p /\
+      tr (ps h1) = [EConnect h port; EClientQueue K200; EUpstreamWrap (policy_call fl h)] ++ t /\
+      Forall (client_side_effect fl h) t /\
+      mode h1 = Running /\ up (ps h1) = UpTls /\ up_buf (ps h1) = [] /\ up_wire (ps h1) = [] /\
+      plain_wire (cl_wire (ps h1)) /\
+      concat (map snd (cl_wire (ps h1))) ++ concat (cl_buf (ps h1)) = K200 /\
+      (exists k cert, In (EClientWrap k cert) t /\ client_handshake k cert = None /\
+                      mem_path cert (fs (ps h1)) = true) /\
+      (forall pth, mem_path pth (fs (ps h1)) = true ->
+                   mem_path pth fs0 = true \/
+                   exists c, In (EOpenssl c) t /\ bytes_eqb pth (cmd_out c) = true /\ openssl_run c = RTrue) /\
+      (forall dir, ca_cert_dir fl = Some dir -> mem_path (generated_cert_file_path dir h) fs0 = true ->
+                   Forall (fun e => is_openssl e = false) t) /\
+      pipe h1 = p0 /\ resp h1 = r0.
+  Proof.
+    cbv zeta.
+    destruct (on_request_complete_ fl host port answers (init_pst fs0)) as [s' r] eqn:H.
+    destruct (hc_after_orc fl host port answers fs0 p0 r0 s' r H) as (Ecl & Eup & Efs & Eub & Euw & Ecw & Ep & Er & Etr & Emode).
+    rewrite Ecl, Eup, Efs, Eub, Euw, Ecw, Ep, Er. intros Htls.
+    destruct (connected_dec host port) as [(h & Htext & Hhost & Hport & Hconn)|Hnc].
+    2:{ destruct (orc_not_connected fl host port answers fs0 Hnc) as (t & e & Heq & _).
+        rewrite Heq in H. inv H. discriminate. }
+    rewrite (orc_connected fl host h port answers fs0 Htext Hhost Hport Hconn) in H.
+    destruct (tls_intercept_enabled_ fl answers) eqn:Hen; [|inv H; discriminate].
+    rewrite intercept_unfold in H.
+    destruct (wrap_server_ fl host (connected_pst fs0 h port)) as [s1 r1] eqn:Hws.
+    apply wrap_server_spec in Hws as (A1 & A2 & A3 & A4 & A5 & A6 & Hr & _). simpl in A1, A2, A3, A4, A5, A6.
+    destruct r1 as [[]|e1]; try (inv H; congruence).
+    destruct Hr as (h' & p & Ht' & Hhs & Hup1 & _ & Htr1). rewrite Htext in Ht'. injection Ht' as <-.
+    destruct (wrap_client_ fl host s1) as [s2 r2] eqn:Hwc.
+    eapply wrap_client_spec in Hwc as (B1 & B2 & B3 & _ & t & Ht & Hall & Hgrow & (w & Hw & Hplain & Hcat) & Hok & Hbad & Hcache); eauto.
+    assert (r2 = Ret false) as ->.
+    { destruct r2 as [[]|e2]; auto; inv H; destruct (Hbad ltac:(discriminate)); congruence. }
+    inv H. destruct (Hok eq_refl) as (_ & _ & k & cert & Hin & Hhsc & Hmem).
+    exists h, p, t. repeat split; auto.
+    - destruct Etr as [(-> & _)|(Habs & _)]; [|discriminate]. rewrite Ht, Htr1. reflexivity.
+    - apply Emode. auto.
+    - congruence.
+    - congruence.
+    - congruence.
+    - rewrite Hw, A4. exact Hplain.
+    - destruct Etr as [(_ & ->)|(Habs & _)]; [|discriminate].
+      rewrite Hw, A4. simpl. rewrite <- (app_nil_r K200). change (K200 ++ []) with (concat [K200]). rewrite <- A3. exact Hcat.
+    - exists k, cert. auto.
+  Qed.
+
+  (* the upstream side is wrapped only after a handshake that succeeded under the policy settings *)
+  Lemma hc_upstream_tls fl host port answers fs0 p0 r0 :
+    let h1 := handle_connect_ fl host port answers (init_h fs0 p0 r0) in
+    up (ps h1) = UpTls ->
+    exists h p, text_ host = Ok h /\ handshake (policy_call fl h) = HsOk p.
+  Proof.
+    cbv zeta.
+    destruct (on_request_complete_ fl host port answers (init_pst fs0)) as [s' r] eqn:H.
+    destruct (hc_after_orc fl host port answers fs0 p0 r0 s' r H) as (_ & Eup & _).
+    rewrite Eup. intros Htls.
+    destruct (connected_dec host port) as [(h & Htext & Hhost & Hport & Hconn)|Hnc].
+    2:{ destruct (orc_not_connected fl host port answers fs0 Hnc) as (t & e & Heq & _).
+        rewrite Heq in H. inv H. discriminate. }
+    rewrite (orc_connected fl host h port answers fs0 Htext Hhost Hport Hconn) in H.
+    destruct (tls_intercept_enabled_ fl answers) eqn:Hen; [|inv H; discriminate].
+    rewrite intercept_unfold in H.
+    destruct (wrap_server_ fl host (connected_pst fs0 h port)) as [s1 r1] eqn:Hws.
+    apply wrap_server_spec in Hws as (_ & _ & _ & _ & _ & _ & Hr & _).
+    destruct r1 as [[]|e1].
+    - destruct Hr as (h' & e' & _ & _ & _ & Hup & _). inv H. congruence.
+    - destruct Hr as (h' & p & Ht' & Hhs & _). eauto.
+    - inv H. destruct Hr as [(_ & Hup & _)|(h' & _ & _ & _ & Hup & _)]; simpl in *; congruence.
+  Qed.
+
+  (* wire entries are tagged with the kind the connection has, which never changes after the CONNECT *)
+  Lemma step_wire_tags fl h ev :
+    (forall x, In x (cl_wire (ps (step_ fl h ev))) -> In x (cl_wire (ps h)) \/ fst x = is_tls_cl (cl (ps h))) /\
+    (forall x, In x (up_wire (ps (step_ fl h ev))) -> In x (up_wire (ps h)) \/ fst x = is_tls_up (up (ps h))).
+  Proof.
+    unfold step, on_client_data, read_from_descriptors, with_ps, with_mode, mbind, set_up_buf, set_cl_buf, set_cl_wire, set_up_wire.
+    destruct (mode h), ev; simpl; auto;
+      repeat (case_match_goal; simpl; auto);
+      split; intros x Hx; auto;
+      apply in_app_or in Hx as [Hx|Hx]; auto; right;
+      try (destruct Hx as [<-|Hx]; [reflexivity|]);
+      apply in_map_iff in Hx as (d & <- & _); reflexivity.
+  Qed.
+
+  Lemma fold_wire_tags fl evs h :
+    (forall x, In x (cl_wire (ps (fold_left (step_ fl) evs h))) -> In x (cl_wire (ps h)) \/ fst x = is_tls_cl (cl (ps h))) /\
+    (forall x, In x (up_wire (ps (fold_left (step_ fl) evs h))) -> In x (up_wire (ps h)) \/ fst x = is_tls_up (up (ps h))).
+  Proof.
+    revert h. induction evs as [|ev t IH]; intros h; cbn [fold_left]; [auto|].
+    destruct (IH (step_ fl h ev)) as (IHc & IHu).
+    destruct (step_wire_tags fl h ev) as (Sc & Su).
+    destruct (step_fixed fl h ev) as (_ & _ & Ecl & Eup).
+    split; intros x Hx.
+    - apply IHc in Hx as [Hx|Hx]; [auto|right; congruence].
+    - apply IHu in Hx as [Hx|Hx]; [auto|right; congruence].
+  Qed.
+
+  Lemma hc_wires fl host port answers fs0 p0 r0 :
+    let h1 := handle_connect_ fl host port answers (init_h fs0 p0 r0) in
+    plain_wire (cl_wire (ps h1)) /\ up_wire (ps h1) = [].
+  Proof.
+    cbv zeta.
+    destruct (on_request_complete_ fl host port answers (init_pst fs0)) as [s' r] eqn:H.
+    destruct (hc_after_orc fl host port answers fs0 p0 r0 s' r H) as (_ & _ & _ & _ & Euw & Ecw & _).
+    rewrite Euw, Ecw.
+    destruct (connected_dec host port) as [(h & Htext & Hhost & Hport & Hconn)|Hnc].
+    2:{ destruct (orc_not_connected fl host port answers fs0 Hnc) as (t & e & Heq & _).
+        rewrite Heq in H. inv H. split; [constructor|reflexivity]. }
+    rewrite (orc_connected fl host h port answers fs0 Htext Hhost Hport Hconn) in H.
+    destruct (tls_intercept_enabled_ fl answers) eqn:Hen; [|inv H; split; [constructor|reflexivity]].
+    rewrite intercept_unfold in H.
+    destruct (wrap_server_ fl host (connected_pst fs0 h port)) as [s1 r1] eqn:Hws.
+    apply wrap_server_spec in Hws as (_ & _ & _ & A4 & _ & A6 & _ & _). simpl in A4, A6.
+    destruct r1 as [[]|e1]; try (inv H; rewrite A4, A6; split; [constructor|reflexivity]).
+    destruct (wrap_client_ fl host s1) as [s2 r2] eqn:Hwc.
+    eapply wrap_client_spec in Hwc as (_ & _ & B3 & _ & t & _ & _ & _ & (w & Hw & Hplain & _) & _); eauto.
+    assert (plain_wire (cl_wire s2) /\ up_wire s2 = []) by (rewrite Hw, A4, B3, A6; auto).
+    destruct r2 as [[]|e2]; inv H; assumption.
+  Qed.
+
+  (* Nothing is ever sent inside a TLS session of the proxy - to either side - unless the upstream
+     handshake succeeded under the policy settings (and hence, by openssl_spec, unless the origin's
+     certificate verified, when verification is on). *)
+  Theorem tls_only_after_verified_handshake fl host port answers fs0 p0 r0 evs :
+    let hf := run_ fl host port answers fs0 p0 r0 evs in
+    (cl (ps hf) = ClTls \/ up (ps hf) = UpTls \/
+     (exists d, In (true, d) (cl_wire (ps hf))) \/ (exists d, In (true, d) (up_wire (ps hf)))) ->
+    exists h p, text_ host = Ok h /\ handshake (policy_call fl h) = HsOk p.
+  Proof.
+    cbv zeta. unfold run.
+    set (h1 := handle_connect_ fl host port answers (init_h fs0 p0 r0)).
+    destruct (fold_fixed fl evs h1) as (_ & _ & Ecl & Eup).
+    destruct (fold_wire_tags fl evs h1) as (Tc & Tu).
+    destruct (hc_wires fl host port answers fs0 p0 r0) as (Hpc & Hpu). fold h1 in Hpc, Hpu.
+    assert (Hc : cl (ps h1) = ClTls -> exists h p, text_ host = Ok h /\ handshake (policy_call fl h) = HsOk p).
+    { intros Hc. destruct (hc_client_tls fl host port answers fs0 p0 r0 Hc) as (h & p & _ & Ht & _ & _ & _ & _ & Hh & _). eauto. }
+    assert (Hu : up (ps h1) = UpTls -> exists h p, text_ host = Ok h /\ handshake (policy_call fl h) = HsOk p).
+    { apply hc_upstream_tls. }
+    rewrite Ecl, Eup. intros [H|[H|[(d & H)|(d & H)]]]; auto.
+    - apply Tc in H as [H|H].
+      + unfold plain_wire in Hpc. rewrite Forall_forall in Hpc. apply Hpc in H. discriminate.
+      + simpl in H. apply Hc. destruct (cl (ps h1)); simpl in H; congruence.
+    - apply Tu in H as [H|H].
+      + rewrite Hpu in H. contradiction.
+      + simpl in H. apply Hu. destruct (up (ps h1)); simpl in H; congruence.
+  Qed.
+
+  Corollary tls_only_for_good_origin chain_ok name_ok fl host port answers fs0 p0 r0 evs :
+    openssl_spec handshake chain_ok name_ok ->
+    insecure_tls_interception fl = false ->
+    let hf := run_ fl host port answers fs0 p0 r0 evs in
+    (cl (ps hf) = ClTls \/ up (ps hf) = UpTls \/
+     (exists d, In (true, d) (cl_wire (ps hf))) \/ (exists d, In (true, d) (up_wire (ps hf)))) ->
+    exists h, text_ host = Ok h /\ chain_ok (ca_file fl) = true /\ name_ok (strip_brackets h) = true.
+  Proof.
+    intros (Hchain & Hname) Hsec hf Htls.
+    destruct (tls_only_after_verified_handshake fl host port answers fs0 p0 r0 evs Htls) as (h & p & Htext & Hhs).
+    exists h. split; [assumption|].
+    unfold policy_call in Hhs. rewrite Hsec in Hhs. simpl in Hhs.
+    split.
+    - destruct (chain_ok (ca_file fl)) eqn:Hc; [reflexivity|].
+      rewrite Hchain in Hhs; [discriminate|reflexivity|exact Hc].
+    - destruct (name_ok (strip_brackets h)) eqn:Hn; [reflexivity|].
+      erewrite Hname in Hhs; [discriminate|reflexivity|reflexivity|reflexivity|exact Hn].
+  Qed.
+
+  (* ================================================================ the generated certificate *)
+  (* every openssl command and every client-side handshake names the CONNECT host: subjectAltName
+     (IP: for literals, DNS: otherwise), cache file names, signing CA, leaf key *)
+  Theorem cert_names_host fl host port answers fs0 p0 r0 evs :
+    let hf := run_ fl host port answers fs0 p0 r0 evs in
+    forall e, In e (tr (ps hf)) ->
+      match e with
+      | EOpenssl c => exists h, text_ host = Ok h /\ good_cmd fl h c
+      | EClientWrap k cert =>
+          exists h dir, text_ host = Ok h /\ ca_signing_key_file fl = Some k /\
+                        ca_cert_dir fl = Some dir /\ cert = generated_cert_file_path dir h
+      | _ => True
+      end.
+  Proof.
+    cbv zeta. unfold run. destruct (fold_fixed fl evs (handle_connect_ fl host port answers (init_h fs0 p0 r0))) as (-> & _).
+    destruct (hc_trace fl host port answers fs0 p0 r0) as (Ha & _).
+    intros e Hin. rewrite Forall_forall in Ha. apply Ha in Hin.
+    destruct e; simpl in *; auto.
+    destruct Hin as (h & Htext & Hk & dir & Hdir & Hcert). eauto 8.
+  Qed.
+
+  (* warm cache: the certificate file exists -> no openssl command at all;
+     and whenever the client side is wrapped, the certificate presented is the host's cache file, it
+     exists, and it was either cached or written by a successful openssl command of this connection *)
+  Theorem cert_cache fl host port answers fs0 p0 r0 evs :
+    let hf := run_ fl host port answers fs0 p0 r0 evs in
+    (forall h dir, text_ host = Ok h -> ca_cert_dir fl = Some dir ->
+                   mem_path (generated_cert_file_path dir h) fs0 = true ->
+                   Forall (fun e => is_openssl e = false) (tr (ps hf))) /\
+    (cl (ps hf) = ClTls ->
+     exists h dir k, text_ host = Ok h /\ ca_cert_dir fl = Some dir /\
+       let cert := generated_cert_file_path dir h in
+       In (EClientWrap k cert) (tr (ps hf)) /\ client_handshake k cert = None /\
+       mem_path cert (fs (ps hf)) = true /\
+       (mem_path cert fs0 = true \/
+        exists c, In (EOpenssl c) (tr (ps hf)) /\ bytes_eqb cert (cmd_out c) = true /\ openssl_run c = RTrue)).
+  Proof.
+    cbv zeta. unfold run.
+    set (h1 := handle_connect_ fl host port answers (init_h fs0 p0 r0)).
+    destruct (fold_fixed fl evs h1) as (-> & -> & -> & _).
+    split.
+    - intros h dir Htext Hdir Hc.
+      destruct (on_request_complete_ fl host port answers (init_pst fs0)) as [s' r] eqn:H.
+      destruct (hc_after_orc fl host port answers fs0 p0 r0 s' r H) as (_ & _ & _ & _ & _ & _ & _ & _ & Etr & _).
+      fold h1 in Etr.
+      assert (Hs' : Forall (fun e => is_openssl e = false) (tr s')).
+      { destruct (connected_dec host port) as [(h' & Htext' & Hhost & Hport & Hconn)|Hnc].
+        2:{ destruct (orc_not_connected fl host port answers fs0 Hnc) as (t & e & Heq & _ & Ht).
+            rewrite Heq in H. inv H. simpl. destruct Ht as [->|(h' & _ & ->)]; repeat constructor. }
+        rewrite Htext in Htext'. injection Htext' as <-.
+        rewrite (orc_connected fl host h port answers fs0 Htext Hhost Hport Hconn) in H.
+        destruct (tls_intercept_enabled_ fl answers); [|inv H; repeat constructor].
+        rewrite intercept_unfold in H.
+        destruct (wrap_server_ fl host (connected_pst fs0 h port)) as [s1 r1] eqn:Hws.
+        apply wrap_server_spec in Hws as (A1 & _ & _ & _ & _ & _ & Hr & _). simpl in A1.
+        assert (Hs1 : Forall (fun e => is_openssl e = false) (tr s1)).
+        { destruct r1 as [[]|e1].
+          - destruct Hr as (? & ? & _ & _ & _ & _ & ->). repeat constructor.
+          - destruct Hr as (? & ? & _ & _ & _ & _ & ->). repeat constructor.
+          - destruct Hr as [(_ & _ & ->)|(? & _ & _ & _ & _ & ->)]; repeat constructor. }
+        destruct r1 as [[]|e1]; try (inv H; assumption).
+        destruct (wrap_client_ fl host s1) as [s2 r2] eqn:Hwc.
+        eapply wrap_client_spec in Hwc as (_ & _ & _ & _ & t & Ht & _ & _ & _ & _ & _ & Hcache); eauto.
+        assert (Hs2 : Forall (fun e => is_openssl e = false) (tr s2)).
+        { rewrite Ht. apply Forall_app. split; [assumption|]. apply (Hcache dir Hdir). now rewrite A1. }
+        destruct r2 as [[]|e2]; inv H; assumption. }
+      destruct Etr as [(-> & _)|(_ & -> & _)]; [assumption|].
+      apply Forall_app. split; [assumption|repeat constructor].
+    - intros Htls.
+      destruct (hc_client_tls fl host port answers fs0 p0 r0 Htls)
+        as (h & p & t & Htext & _ & _ & _ & _ & _ & Htr & Hall & _ & _ & _ & _ & _ & _ & (k & cert & Hin & Hhs & Hmem) & Hgrow & _).
+      fold h1 in Htr, Hmem, Hgrow.
+      rewrite Forall_forall in Hall. pose proof (Hall _ Hin) as (Hk & dir & Hdir & ->).
+      exists h, dir, k. split; [assumption|]. split; [assumption|]. cbv zeta.
+      split; [rewrite Htr; apply in_or_app; now right|]. split; [assumption|]. split; [assumption|].
+      destruct (Hgrow _ Hmem) as [Hm|(c & Hc & Heq & Hrun)]; [now left|right].
+      exists c. split; [rewrite Htr; apply in_or_app; now right|auto].
+  Qed.
+
+  (* ================================================================ the intercepted exchange *)
+  (* Once the client side is wrapped: every later chunk the client sends (decrypted) goes through
+     on_client_data's request pipeline (C02) and what that produces is queued for the origin and leaves
+     only inside the upstream TLS session; every origin chunk is queued for the client unmodified and
+     leaves only inside the client TLS session; the plaintext the client ever received is (a prefix of)
+     the CONNECT reply. *)
+  Theorem intercepted_exchange fl host port answers fs0 p0 r0 evs outs :
+    let h1 := handle_connect_ fl host port answers (init_h fs0 p0 r0) in
+    let hf := run_ fl host port answers fs0 p0 r0 evs in
+    cl (ps h1) = ClTls ->
+    Forall (engaged_at fl) evs ->
+    pipeline_outs pipeline_step p0 (client_chunks evs) = Some outs ->
+    responses_ok response_step r0 (upstream_chunks evs) = true ->
+    established hf /\
+    exists w0 wc,
+      cl_wire (ps hf) = w0 ++ wc /\ plain_wire w0 /\ tls_wire wc /\
+      tls_wire (up_wire (ps hf)) /\
+      map snd (up_wire (ps hf)) ++ up_buf (ps hf) = outs /\
+      concat (map snd w0) ++ concat (map snd wc ++ cl_buf (ps hf)) = K200 ++ concat (upstream_chunks evs).
+  Proof.
+    cbv zeta. intros Htls Hall Hpipe Hresp. unfold run.
+    destruct (hc_client_tls fl host port answers fs0 p0 r0 Htls)
+      as (h & p & t & _ & _ & _ & _ & _ & _ & _ & _ & Hm & Hup & Hub & Huw & Hplain & Hcat & _ & _ & _ & Hp0 & Hr0).
+    set (h1 := handle_connect_ fl host port answers (init_h fs0 p0 r0)) in *.
+    assert (Hest : established h1) by (repeat split; assumption).
+    rewrite <- Hp0 in Hpipe. rewrite <- Hr0 in Hresp.
+    destruct (intercepted_fold fl evs h1 outs Hest Hall Hpipe Hresp)
+      as (Hest' & wc & wu & Hcw & Htc & Huw' & Htu & Hub' & Hcb').
+    split; [assumption|]. exists (cl_wire (ps h1)), wc.
+    rewrite Huw, app_nil_l in Huw'. rewrite Hub, app_nil_l in Hub'.
+    repeat split; auto.
+    - rewrite Huw'. assumption.
+    - rewrite Huw'. assumption.
+    - rewrite Hcb', concat_app, app_assoc, Hcat. reflexivity.
   Qed.
 End Facts.
